@@ -70,8 +70,14 @@ def eval_case(case):
         for n in L[1]:
             if '-cert-v' in n and n not in spec['hostkeys']:
                 spec['hostkeys'][n] = {'t': 'cert', 'kind': 'ssh-ed25519-cert-v01@openssh.com', 'ca': {'t': 'ed25519'}}
+    seg = 0
+    if case.get('delivery'):
+        # text in front of the identification string, and TCP segments that end inside that string
+        d = case['delivery']
+        spec['pre'] = d['pre']
+        seg = len(d['pre']) + d['cut'] if d['cut'] > 0 else -d['cut']
     peer = fakenet.Server(spec)
-    net = fakenet.FakeNet()
+    net = fakenet.FakeNet(segment=seg)
     if role == 'server':
         net.add('h', 22, peer)
         argv = opts + ['--skip-rate-test', 'h']
@@ -84,7 +90,7 @@ def eval_case(case):
     asym = L[2] != L[3] or L[4] != L[5]
     cl = ['role:' + role, 'render:' + ' '.join(opts[1:] or ['plain'])]
     feats = {'gss': any(n.startswith('gss-') for n in L[0]), 'unknown': False, 'dup': any(len(set(l)) != len(l) for l in L[:6]), 'empty-elem': any('' in l and len(l) > 1 for l in L[:6]),
-             'empty-list': any(l in ([], ['']) for l in L[:6]), 'non-utf8': any(ord(c) >= 0x80 for n in flat for c in n), 'asym': asym, 'client': role == 'client', 'probes': bool(case.get('probes')), 'long': any(len(n) > 100 for n in flat), 'long-list': any(len(l) > 200 for l in L), 'long-padding': (case.get('pad') or 0) > 8}
+             'empty-list': any(l in ([], ['']) for l in L[:6]), 'non-utf8': any(ord(c) >= 0x80 for n in flat for c in n), 'asym': asym, 'client': role == 'client', 'probes': bool(case.get('probes')), 'long': any(len(n) > 100 for n in flat), 'long-list': any(len(l) > 200 for l in L), 'long-padding': (case.get('pad') or 0) > 8, 'pre-banner-text-and-split-delivery': bool(case.get('delivery'))}
     dbn = {c: set(gens.db_names(c)) for c in CATS}
     feats['unknown'] = any(n and n not in dbn[c] and not n.startswith('gss-') for c, l in zip(CATS, (L[0], L[1], L[3], L[5])) for n in l)
     cl += [k for k, v in feats.items() if v]
@@ -211,6 +217,8 @@ def strat_kexinit():
         # an empty list is advertised as the empty string
         if tail is not None:
             extra['tail'] = tail
+        if longname is None and (len(kex) * 5 + len(enc) * 3 + len(mac)) % 11 == 0:
+            extra['delivery'] = {'pre': ['Welcome\r\n', '\r\n', 'notice line one\r\nnotice line two\r\n', '*** authorised use only ***\n'][len(key) % 4], 'cut': [3, 9, 12, 20, 33, -7, -64, 1][(len(kex) + len(mac)) % 8]}
         return dict({'proto': 2, 'role': role, 'opts': opts, 'probes': probes and role == 'server', 'lists': lists}, **extra)
     tails = st.sampled_from([{'follows': True}, {'reserved': 0xffffffff}, {'reserved': 1, 'follows': True}, {'lang': ['en-US']}, {'lang': ['en-US', 'de-DE'], 'lang_c': ['fr']}, {'lang': ['aes128-cbc', 'hmac-md5']},
                              {'cookie': '\xff' * 16}, {'cookie': 'SSH-2.0-cookie\r\n', 'follows': True, 'reserved': 0x80000000, 'lang': ['x' * 300]}])
